@@ -12,6 +12,8 @@
 // port are contained); results are JSON lines.
 #include "dxcore.hpp"
 
+static std::map<std::string, Config> g_pre; // configuration key -> predecessor (re-initialisation chains)
+
 // ---------------------------------------------------------------- exploration state
 struct Violation {
   std::string oracle, why;
@@ -470,6 +472,12 @@ static std::string run_config(const Config & c, const Opts & o)
   std::string initdiff;
   double table_rel = 0;
   int ier = -1;
+  auto pre = g_pre.find(c.key());
+  if (pre != g_pre.end() && !o.via_gen) {
+    // re-initialisation chain: the predecessor first, on the same objects
+    if (o.ref) X.R.init(pre->second, PHASE);
+    X.P.init(pre->second, PHASE);
+  }
   if (o.ref) ier = X.R.init(c, PHASE);
   int perr = X.P.init(c, PHASE);
   bool port_ok = (perr == 0);
@@ -574,6 +582,8 @@ static std::string run_config(const Config & c, const Opts & o)
 }
 
 // ---------------------------------------------------------------- main: process pool
+// optional predecessor configuration ("... PRE cat name level mode e1 e2"): initialised first on the SAME
+// working objects of model and port (plumbing API: same bbpars, no reset), then the configuration itself
 static bool parse_cfg(const std::string & line, Config & c)
 {
   std::istringstream is(line);
@@ -582,7 +592,26 @@ static bool parse_cfg(const std::string & line, Config & c)
   c.level = 0;
   c.mode = 0;
   c.e1 = c.e2 = -1;
-  is >> c.level >> c.mode >> c.e1 >> c.e2;
+  std::vector<std::string> tok;
+  std::string t;
+  while (is >> t) tok.push_back(t);
+  size_t ip = std::find(tok.begin(), tok.end(), "PRE") - tok.begin();
+  auto num = [&](size_t k, size_t end, double dflt) { return k < end ? atof(tok[k].c_str()) : dflt; };
+  c.level = (int)num(0, ip, 0);
+  c.mode = (int)num(1, ip, 0);
+  c.e1 = num(2, ip, -1);
+  c.e2 = num(3, ip, -1);
+  if (ip + 2 < tok.size()) {
+    Config p;
+    p.cat = tok[ip + 1];
+    p.name = tok[ip + 2];
+    p.level = (int)num(ip + 3, tok.size(), 0);
+    p.mode = (int)num(ip + 4, tok.size(), 0);
+    p.e1 = num(ip + 5, tok.size(), -1);
+    p.e2 = num(ip + 6, tok.size(), -1);
+    c.pre = p.key();
+    g_pre[c.key()] = p;
+  }
   return true;
 }
 
